@@ -317,8 +317,7 @@ def tasks(tier):
             out.append({'cfg': {'N': 2, 'R': 3, 'mask': mask}, 'mode': 'stateful'})
         for c in cfgs((1,), (0, 1, 2, 3)):
             out.append({'cfg': c, 'mode': 'bounded', 'bound': 1})
-        for c in cfgs((2,), (0, 1)):
-            out.append({'cfg': c, 'mode': 'bounded', 'bound': 1})
+        out.append({'cfg': {'N': 2, 'R': 1, 'mask': 1}, 'mode': 'deviation', 'bound': 2})
         out.append({'cfg': {'N': 1, 'R': 1, 'mask': 1}, 'mode': 'line', 'bound': 1})
         out.append({'cfg': {'N': 1, 'R': 2, 'mask': 1}, 'mode': 'line', 'bound': 1})
         out.append({'cfg': {'N': 1, 'R': 1, 'mask': 1, 'nopred': True}, 'mode': 'stateful', 'seam': 'flow'})
